@@ -11,7 +11,11 @@ is needed.  TIED by the `rendezvous` engine: the REAL Manager.HandleCluster (cli
 (hook H3) with the harness playing raft - proposals committed delayed, reordered across connections, in batches of random sizes, mixed
 with foreign and replayed entries, while clients pipeline - replayed on Rendezvous.next with Exec.exec as the state machine; every
 delivered reply is compared byte for byte (thorough tier: also under the race detector).  TIED to the code by the `apply` engine: random overlapping Ready batches (incl. batches that start
-beyond applied+1, which must be refused) through the REAL entriesToApply/publishEntries vs Apply.publish, and by fact F4.
+beyond applied+1, which must be refused) through the REAL entriesToApply/publishEntries vs Apply.publish, and by fact F4 (incl. F4d: the
+wal.Save step of the Ready arm is unconditional).  The behavioural form of F4 - the real Ready loop of one node with the harness as its two
+peers; a vote is answered / an append acknowledged / an entry applied only when a restart would find it on disk; no two grants in one term
+across restarts, which is what keeps C15's election safety true of the loop AROUND raft - is C08's suite "readyloop"
+(vlib/readygen.py, harness/readyloop.go), run by `check C08`.
 
 NOT PROVED — EXPLORED: the end-to-end statement.  The `cluster` engine starts 3 and 5 real node processes on loopback, runs 4-16
 concurrent RESP clients against random nodes, kills (SIGKILL) followers, the leader, minorities and all nodes at random instants,
